@@ -24,6 +24,9 @@ CHECKS = {
  "C04": dict(tech="Coq proof of the CRC-32C detection algebra (weight<=3 or burst<=32 in any region < 2^31-1 bits) + corruption of real closed files",
    text="coq/Properties_C04_alg.v proves on the LFSR operator of CrcDefs.v that every error pattern of odd weight, of weight two (order 2^31-1 by GF(2) matrix powers + primality), or confined to 32 consecutive bits, anywhere in message+stored CRC, changes the check, for every region length < 2^31-1 bits. The structural half (every returned byte comes from a CRC-checked chunk) is exercised by corrupting closed files (single-bit flips, 2/3-bit and burst errors per protected region, overwrites, multi-chunk, truncation) and requiring every reader call to return an error, the original answer or a correct prefix.",
    note=COMMON_NOTE + "The structural half is tested, not proved.", ref="5/C04"),
+ "C05": dict(tech="verified checker: Coq decoder written from format.h with proved soundness/totality, extracted and run on every produced file; content compared with the library reader",
+   text="coq/Decode.v is an independent decoder written only from include/jls/format.h; coq/Properties_C05.v proves, for all byte strings, that dw_walk terminates and that dw_walk f = Ok w implies the conformance record (file header CRC/id/version/length; chunks tile the file, 8-aligned, header and payload CRCs valid w.r.t. crc_spec, zero padding, END last; payload_prev_length chain; doubly linked lists per list identity; track head tables; INDEX followed by SUMMARY; FSR/annotation/UTC index entries point to chunks of the expected kind, signal, level and timestamp), plus encode/decode round trips of every header. The extracted decoder walks (strict mode) every file produced here by the sync writer, by jls_copy and by repair-on-open, and its rebuilt definitions/annotations/UTC/user data are compared with the library reader.",
+   note=COMMON_NOTE + "Verified checker on sampled outputs: that the writer ALWAYS produces conformant files is not proved (no byte-level writer theorem yet). Non-conformant repaired files are recorded known findings.", ref="5/C05"),
  "C08": dict(tech="Coq refinement proof of the ring buffer to a FIFO (all capacities <= 2^31, all sizes, all op sequences) + complete small-capacity state space replayed on the C",
    text="coq/Properties_C08.v: invariant + abstraction function; alloc/peek/pop refine list append/head/tail; allocated regions lie inside the buffer and are disjoint from un-popped messages; alloc fails only when no free run can hold the message with its framing; after emptying, any message up to capacity-8 is accepted; every reachable state satisfies the invariant and no operation faults. Refutation witnesses document the repaired near-capacity defect. The C is tied by replaying the complete reachable state space for capacities 16..28 (thorough 16..34) and long random walks on both ASan and guard-byte builds.",
    note=COMMON_NOTE + "Buffers above 2^31 bytes are outside the theorems (uint32 index arithmetic).", ref="5/C08"),
@@ -42,9 +45,15 @@ CHECKS = {
  "C13": dict(tech="differential run of definition/user-data programs against the extracted Spec.wstep acceptance rules and read-back",
    text="Sources/signals with valid and invalid ids, duplicates, undefined sources, invalid types, NULL/empty/UTF-8/long strings (around the 1 MiB string block), user data 0..3 MiB, data calls on undefined signals, all shuffled; acceptance of every call and the definitions/user data read back are compared with the extracted specification.",
    note=COMMON_NOTE, ref="5/C13"),
+ "C14": dict(tech="verified checker: Coq write-once classifier with proved soundness for all logs, extracted and run on the interposed backend write log of every program",
+   text="coq/WriteOnce.v replays a backend write log, tracks chunk extents and accepts a write only if it is an append, a 32-byte header rewrite changing nothing but item_next and crc32 (valid CRC), a head-table entry going from 0 to an existing chunk offset (with its footer), or the file header; coq/Properties_C14.v proves for ALL logs that acceptance implies the semantic statement over file bytes: the file never shrinks, completed chunks keep tag/meta/lengths/item_prev, and no payload byte of a non-HEAD chunk ever changes. Every write(2)/ftruncate of every generated program is interposed (--wrap) and fed to the extracted checker.",
+   note=COMMON_NOTE + "Verified checker on observed logs; that every log the writer can produce passes is not proved. Threaded-writer logs: see C06.", ref="5/C14"),
  "C15": dict(tech="relational differential run: same stream with and without omission + extracted Spec",
    text="Two signals with identical definition and data, one with omission toggles / constant blocks: lengths equal the specification, stored blocks bit-exact, automatically omitted <=8-bit constant blocks bit-exact through unaligned windows, requested omissions return the right size, summary-level statistics bit-identical.",
    note=COMMON_NOTE, ref="5/C15"),
+ "C16": dict(tech="Coq proof over all 2^128 parameter combinations x 7 widths (uint32 arithmetic explicit) + exhaustive boundary grid on jls_core_signal_def_align",
+   text="coq/Properties_C16.v on the faithful model of jls_core_signal_def_validate/_align (64-bit rounding with rejection, per-width defaults incl. 24-bit, minimums, size limits): for every width and all 32-bit field values the definition is either rejected with PARAMETER_INVALID or stored with parameters satisfying every relation the format relies on (entry = multiple of 256 bits, sdf | spd, (spd/sdf) | eps, sumdf | eps, minimums, annotation/UTC factors >= 10, buffer sizes within 32-bit limits); normalising a stored definition changes nothing (unguarded idempotence); zero fields take the per-width defaults; the fitting loop terminates. coq/SigDefSpec.v ties Spec.sp_align to it. jls_core_signal_def_align is run on ~180k cases (complete small grid x 15 types, boundary sweeps, guard boundaries) on plain and ASan builds: equal to the model, consistent, idempotent, plus file round trips.",
+   note=COMMON_NOTE + "Documentation theorems (*_old) record the five repaired defect classes.", ref="5/C16"),
  "C17": dict(tech="differential run: reader dump of the jls_copy output against the extracted Spec.spec_of of the original program",
    text="Generated files (several signals/types, annotations, UTC, user data, omission) are copied with jls_copy; sources, signals, lengths, windows, annotations, UTC and user data of the copy are compared with the extracted specification of the original program.",
    note=COMMON_NOTE, ref="5/C17"),
